@@ -15,9 +15,15 @@ def tagsets():
     import_pgpy()
     from pgpy.constants import KeyFlags as F, HashAlgorithm as H
     return {
+        # identity tags: (key flags, hash preferences); EXPIRY below gives the key expiration each of them sets (None = no subpacket)
         'p1': ({F.Sign, F.Certify}, [H.SHA256]), 'p2': ({F.Certify}, [H.SHA512]), 'p3': ({F.Sign, F.Certify, F.Authentication}, [H.SHA384]),
         'f-sign': ({F.Sign}, None), 'f-auth': ({F.Authentication}, None), 'f-enc': ({F.EncryptCommunications}, None), 'f-enc2': ({F.EncryptStorage}, None),
     }
+
+
+def expiry_of(tag):
+    from datetime import timedelta
+    return {'p2': timedelta(days=20000), 'p3': timedelta(days=30000)}.get(tag)
 
 
 class World(object):
@@ -99,7 +105,8 @@ def view(W, key, label, imported, verifier=None):
             if ss is not None and ss.type in (T.Positive_Cert, T.Generic_Cert, T.Casual_Cert, T.Persona_Cert):
                 tg = (W.flag2tag.get(frozenset(ss.key_flags)) or ['?'])[0]
                 hp = [int(h) for h in ss.hashprefs]
-                cands = [t for t in W.flag2tag.get(frozenset(ss.key_flags), []) if W.tags[t][1] is None or [int(h) for h in W.tags[t][1]] == hp]
+                cands = [t for t in W.flag2tag.get(frozenset(ss.key_flags), []) if (W.tags[t][1] is None or [int(h) for h in W.tags[t][1]] == hp)
+                         and (W.tags[t][1] is None or ss.key_expiration == expiry_of(t))]
                 tg = cands[0] if cands else '?'
             v['eff_tag'][n] = tg
             v['primary'][n] = bool(u.is_primary)
@@ -242,6 +249,8 @@ def replay(W, behaviour, observe_every=True):
                     uid = pgpy.PGPUID.new(W.image) if a == 'IMG' else pgpy.PGPUID.new(NAMES[a][0], email=NAMES[a][1])
                     kw = dict(usage=set(fl), hashes=list(hp), ciphers=[SymmetricKeyAlgorithm.AES128], compression=[CompressionAlgorithm.Uncompressed],
                               policy_uri='urn:seq:%d' % seq, created=created)
+                    if expiry_of(tag) is not None:
+                        kw['key_expiration'] = expiry_of(tag)
                     if prim:
                         kw['primary'] = True
                     elif seq % 2 == 1:
@@ -252,6 +261,8 @@ def replay(W, behaviour, observe_every=True):
                     fl, hp = W.tags[tag]
                     u = find_uid(key, a)
                     kw = dict(usage=set(fl), hashes=list(hp), policy_uri='urn:seq:%d' % seq, created=created)
+                    if expiry_of(tag) is not None:
+                        kw['key_expiration'] = expiry_of(tag)
                     if prim:
                         kw['primary'] = True
                     elif seq % 2 == 0:
